@@ -13,8 +13,9 @@ import (
 // perturbation of annotations and signatures (drop, duplicate, rename, retarget, retype, …).
 
 type projGen struct {
-	r       *rng.R
-	schemes []irScheme
+	r              *rng.R
+	schemes        []irScheme
+	prefixTrailing bool // the controller route ends in "/": a method route may then start with a {param}
 }
 
 var pgPrims = []string{"string", "int", "int64", "uint", "bool", "float64", "uint8"}
@@ -62,6 +63,9 @@ func (g *projGen) method(ci, mi int, prefixParams []string, types []pType, file 
 	}
 	segs = append(segs, fmt.Sprintf("m%d_%d", ci, mi))
 	route := "/" + strings.Join(segs, "/")
+	if g.prefixTrailing && strings.HasPrefix(segs[0], "{") && r.Bool() {
+		route = strings.Join(segs, "/") // "{p0}/..." right after the controller's trailing slash
+	}
 	m.Annots = append(m.Annots, pAnnot{Name: "Method", Value: verb}, pAnnot{Name: "Route", Value: route})
 	if r.Chance(1, 6) {
 		m.Annots = append(m.Annots, pAnnot{Name: "Hidden", Value: rng.Pick(r, []string{"", "", "internal", "x"})})
@@ -391,6 +395,7 @@ func genProject(r *rng.R, nPerturb int) (pProject, []string) {
 			c.Annots = append(c.Annots, pAnnot{Name: "Tag", Value: fmt.Sprintf("Tag %d", ci)})
 		}
 		c.Annots = append(c.Annots, pAnnot{Name: "Route", Value: prefix})
+		g.prefixTrailing = strings.HasSuffix(prefix, "/")
 		if r.Chance(1, 3) {
 			c.Annots = append(c.Annots, pAnnot{Name: "Description", Desc: "Controller é"})
 		}
@@ -406,6 +411,41 @@ func genProject(r *rng.R, nPerturb int) (pProject, []string) {
 		p.Controllers = append(p.Controllers, c)
 	}
 	applied := []string{}
+	if nPerturb > 0 && r.Chance(1, 4) {
+		// a same-verb overlapping template next to an existing route: a path-conflict WARNING
+		ci := r.Intn(len(p.Controllers))
+		ms := p.Controllers[ci].Methods
+		src := ms[r.Intn(len(ms))]
+		verb, route := "", ""
+		for _, a := range src.Annots {
+			if a.Name == "Method" {
+				verb = a.Value
+			}
+			if a.Name == "Route" {
+				route = a.Value
+			}
+		}
+		segs := strings.Split(strings.Trim(route, "/"), "/")
+		for i, s := range segs {
+			if !strings.HasPrefix(s, "{") {
+				segs[i] = "{cp}"
+				break
+			}
+		}
+		twin := pMethod{Name: src.Name + "Twin", File: src.File, Results: []string{"error"},
+			Annots: []pAnnot{{Name: "Method", Value: verb}, {Name: "Route", Value: "/" + strings.Join(segs, "/")}, {Name: "Path", Value: "cp"}},
+			Params: []pParam{{Name: "cp", Type: "string"}}}
+		// the other {params} of the copied template need bindings too
+		for _, s := range segs {
+			if strings.HasPrefix(s, "{") && s != "{cp}" {
+				n := strings.Trim(s, "{}")
+				twin.Annots = append(twin.Annots, pAnnot{Name: "Path", Value: n})
+				twin.Params = append(twin.Params, pParam{Name: n, Type: "string"})
+			}
+		}
+		p.Controllers[ci].Methods = append(p.Controllers[ci].Methods, twin)
+		applied = append(applied, "path-conflict")
+	}
 	for k := 0; k < nPerturb; k++ {
 		ci := r.Intn(len(p.Controllers))
 		mi := r.Intn(len(p.Controllers[ci].Methods))
